@@ -510,3 +510,33 @@ m('C20', 'freq_extrapolate indexes the coarse vector', TIME,
 n('C20', 'ifreq_extrapolate: operands swapped', TIME,
   "        return self.freq_required < self.fmin",
   "        return self.fmin > self.freq_required")
+
+# ------------------------------------------------------------------- C14
+m('C14', 'MapResistivity: derivative sign', MAPS,
+  "        gradient *= -self.backward(mapped)**2",
+  "        gradient *= self.backward(mapped)**2", 'C14.M2')
+m('C14', 'MapLgConductivity: log(10) dropped', MAPS,
+  "        gradient *= self.backward(mapped)*np.log(10)",
+  "        gradient *= self.backward(mapped)", 'C14.M2')
+m('C14', 'MapLgResistivity: backward without the minus', MAPS,
+  "        return 10**-mapped", "        return 10**mapped", 'C14.M1')
+m('C14', 'MapLgResistivity: forward of conductivity', MAPS,
+  "        return np.log10(1.0/conductivity)", "        return np.log10(conductivity)",
+  'C14.M1')
+m('C14', 'mu_r setter without validation', MODELS,
+  "        self._check_positive_finite(mu_r, 'mu_r')\n", "", 'C14.M3')
+m('C14', '_init_parameter without validation', MODELS,
+  "        # Check >0 and finite.\n        self._check_positive_finite(values, name)\n",
+  "", 'C14.M3')
+m('C14', '_check_positive_finite: > 0 -> >= 0', MODELS,
+  "        if not np.all(np.real(mapped) > 0.0):", "        if not np.all(np.real(mapped) >= 0.0):",
+  'C14.M3')
+m('C14', 'VolumeModel: eta from the mapped property', MODELS,
+  "                cond = model.map.backward(prop)", "                cond = prop",
+  'C')
+m('C14', 'layered: conductivity without backward', MP,
+  "        cond_h = map2cond(oned.property_x[0, 0, :])",
+  "        cond_h = oned.property_x[0, 0, :]", 'C14.M4')
+n('C14', 'MapResistivity: chain factor rewritten', MAPS,
+  "        gradient *= -self.backward(mapped)**2",
+  "        gradient *= -1.0/(mapped*mapped)")
